@@ -577,20 +577,23 @@ pub fn protocol_accounting(log: &[Ev], n_workers: usize, finalized_ok: bool) -> 
     }
     let rounds = tokens_announced / n_workers as u64;
     acc.rounds = rounds;
+    // "every worker enters and leaves every synchronisation round": the number of barriers per
+    // round is the implementation's business; what is demanded is that every worker passes the
+    // same barriers as worker 0, leaves each one it entered, and is seen in every round
+    let reference = arrive.get(&0).cloned().unwrap_or_default();
     for w in 0..n_workers as u64 {
         let a = arrive.get(&w).cloned().unwrap_or_default();
         let l = leave.get(&w).cloned().unwrap_or_default();
-        let mut want = Vec::new();
+        if a != reference {
+            return Err(format!("rounds: worker {} arrived at {} barriers, worker 0 at {} ({} rounds)", w, a.len(), reference.len(), rounds));
+        }
+        if l != a {
+            return Err(format!("rounds: worker {} entered {} barriers and left {}", w, a.len(), l.len()));
+        }
         for r in 1..=rounds {
-            for p in 1..=4 {
-                want.push((r, p));
+            if !a.iter().any(|(ar, _)| *ar == r) {
+                return Err(format!("rounds: worker {} passed no barrier of round {} ({} rounds were announced)", w, r, rounds));
             }
-        }
-        if a != want {
-            return Err(format!("rounds: worker {} barrier arrivals {:?}, expected 4 per round for {} rounds", w, a.len(), rounds));
-        }
-        if l != want {
-            return Err(format!("rounds: worker {} left {} barriers, expected {}", w, l.len(), want.len()));
         }
         for r in 1..=rounds {
             if tokens_by_worker_round.get(&(w, r)) != Some(&1) {
